@@ -27,12 +27,12 @@ async def watch(s, stop, peak):
         await asyncio.sleep(0.01)
 
 
-async def scenario(name, max_cores, build, problems):
+async def scenario(name, max_cores, build, problems, sched_kw=None):
     from gwf.backends.local import Scheduler, LocalStatus as L
     d = pathlib.Path(tempfile.mkdtemp(prefix="gwfverif-"))
     try:
         (d / ".gwf" / "logs").mkdir(parents=True)
-        s = Scheduler(working_dir=d, max_cores=max_cores)
+        s = Scheduler(working_dir=d, max_cores=max_cores, **(sched_kw or {}))
         stop, peak = asyncio.Event(), [0]
         w = asyncio.create_task(watch(s, stop, peak))
         expect = await build(s, d)
@@ -204,6 +204,19 @@ async def run_all(problems):
                                     f"task wrote 1000000")
         return {a: L.COMPLETED, l: L.COMPLETED, b: L.COMPLETED}
 
+    async def ids_from_zero(s, d):
+        # a pool whose ids count from 0 (Scheduler(tid_generator=itertools.count())): id 0 is an id like any other
+        a = await s.enqueue_task("a", "exit 1", str(d), None, [])
+        b = await s.enqueue_task("b", "touch b.ran", str(d), None, [a])
+        c = await s.enqueue_task("c", "sleep 0.2; touch c.marker", str(d), None, [])
+        e = await s.enqueue_task("e", "test -f c.marker", str(d), None, [c])
+        await settle(s, [a, b, c, e])
+        if a != 0:
+            problems.append(f"ids from zero: the first id handed out is {a}")
+        if (d / "b.ran").exists():
+            problems.append("ids from zero: the dependent of the failed task 0 was started")
+        return {a: L.FAILED, b: L.FAILED, c: L.COMPLETED, e: L.COMPLETED}
+
     async def signalled(s, d):
         # a task whose shell dies from a signal did not succeed (asyncio reports -N): FAILED, dependents do not run
         a = await s.enqueue_task("a", "kill -SEGV $$", str(d), None, [])
@@ -213,6 +226,14 @@ async def run_all(problems):
             problems.append("signal: the dependent of a task killed by SIGSEGV was started")
         return {a: L.FAILED, b: L.FAILED}
 
+    import itertools
+    try:
+        await asyncio.wait_for(scenario("ids counting from 0", 2, ids_from_zero, problems,
+                                        sched_kw={"tid_generator": itertools.count()}), timeout=40)
+    except asyncio.TimeoutError:
+        problems.append("ids counting from 0: the pool did not settle within 40 s")
+    if problems:
+        return
     for name, cores, fn in (("success+log", 2, ok), ("dependency order", 2, order),
                             ("dependents submitted after the dependency ended badly", 2, late_dependents),
                             ("task killed by a signal", 1, signalled),
@@ -243,7 +264,7 @@ def replay(eng, ob, model, seed):
     finally:
         logging.disable(logging.NOTSET)
     if not problems:
-        return {"failed_on_real_code": False, "candidates_tried": 16, "bound": "16 fixed scenarios, <= 9 tasks, 1-2 cores"}
+        return {"failed_on_real_code": False, "candidates_tried": 17, "bound": "17 fixed scenarios, <= 9 tasks, 1-2 cores"}
     p = " ".join(problems)
     wc = "core-semaphore-over-released" if "semaphore holds" in p or "RUNNING at once" in p else (
         "task-left-in-non-final-state" if "is left in state" in p else "local-other")
